@@ -27,6 +27,9 @@ type c04Case struct {
 	// Second: a second caller issues a unary RPC right after the cancel and has its own context
 	// cancelled while it waits (for the semaphore, for the previous stream, or for its response).
 	Second bool
+	// Prelude: an earlier unary call on the same connection has completed and its context was cancelled
+	// right away (`defer cancel()`), before the RPC under test starts.
+	Prelude bool
 }
 
 // weighted choice alphabet for C04: grants are frequent so that several operations are in
@@ -81,6 +84,7 @@ func genC04(t *rapid.T) c04Case {
 	c.LateOps = rapid.IntRange(0, 3).Draw(t, "late")
 	c.Stall = rapid.IntRange(0, 2).Draw(t, "stall")
 	c.Second = rapid.IntRange(0, 2).Draw(t, "second") == 0
+	c.Prelude = rapid.Bool().Draw(t, "prelude")
 	if rapid.IntRange(0, 2).Draw(t, "points") == 0 {
 		// (including the consumer held inside Unmarshal while it still borrows the stream's read buffer)
 		c.Cfg.Points = rapid.SliceOfNDistinct(rapid.SampledFrom(append([]string{"harness.Unmarshal.holding", "harness.Unmarshal.holding", "manager.manageReader.beforeDispatch"}, streamPoints...)), 1, 4, func(s string) string { return s }).Draw(t, "pts")
@@ -119,7 +123,9 @@ func runC04(c c04Case) (r pbt.Result) {
 		CSubs: []sim.Prog{{Steps: sends}, {Steps: c.Sends2}, {Steps: recvSteps}, {Steps: term}}}
 	rpc1 := sim.RPC{Unary: true, ReqSize: 3, CSubs: []sim.Prog{{Steps: []sim.Step{{Op: "cancel"}}}},
 		Handler: sim.Prog{Steps: []sim.Step{{Op: "recv"}, {Op: "send", Size: 1}, {Op: "ret"}}}}
-	w := sim.NewWorld(c.Cfg, []sim.RPC{rpc, rpc1})
+	rpc2 := sim.RPC{Unary: true, ReqSize: 2, CancelImmediately: true,
+		Handler: sim.Prog{Steps: []sim.Step{{Op: "recv"}, {Op: "send", Size: 2}, {Op: "drain"}, {Op: "ret"}}}}
+	w := sim.NewWorld(c.Cfg, []sim.RPC{rpc, rpc1, rpc2})
 	defer w.Drain()
 	fail := func(f string, a ...any) {
 		r.Fail = fmt.Sprintf(f, a...)
@@ -127,6 +133,15 @@ func runC04(c c04Case) (r pbt.Result) {
 	}
 	choices := append([]int(nil), c.Choices...)
 	soft := c.Cfg.Soft
+	if c.Prelude {
+		w.StartClient(2)
+		w.Flush(sim.Filter{Coarse: true})
+		if !w.Done("c2") {
+			fail("harness: prelude call did not complete")
+			return
+		}
+		r.Label("after_an_earlier_cancelled_call")
+	}
 	// create the stream with a flowing transport, nothing else granted
 	w.StartClient(0)
 	only := func(names ...string) sim.Filter {
